@@ -5,6 +5,8 @@
 #include <nop/base/encoding.h>
 #include <nop/base/handle.h>
 #include <nop/base/members.h>
+#include <nop/base/optional.h>
+#include <nop/base/variant.h>
 #include <nop/base/serializer.h>
 #include <nop/base/table.h>
 #include <nop/structure.h>
@@ -257,8 +259,58 @@ inline void handle_table_lemma() {
   vt_cover(true, "handle table lemma end");
 }
 
+// handles at other nesting positions: inside an Optional and inside a Variant alternative
+struct SN {
+  nop::Optional<H> o;
+  nop::Variant<H, std::uint8_t> v;
+  H last;
+  NOP_STRUCTURE(SN, o, v, last);
+};
+inline void handle_nested_lemma() {
+  SN s;
+  const bool has_o = nondet<bool>();
+  const bool v_is_handle = nondet<bool>();
+  const int ho = nondet<int>(), hv = nondet<int>(), hl = nondet<int>();
+  if (has_o) s.o = H(ho);
+  if (v_is_handle) s.v = H(hv); else s.v = static_cast<std::uint8_t>(hv);
+  s.last = H(hl);
+  std::uint8_t buf[fmt::kCap];
+  HWriter w;
+  w.Init(buf, sizeof buf);
+  w.npushed = 0;
+  w.push_fail_at = 9;
+  w.push_fail_code = 16;
+  for (int i = 0; i < 4; i++) w.refs[i] = 10 + i;
+  nop::Serializer<HWriter*> ser{&w};
+  const std::size_t size = ser.GetSize(s);
+  auto st = ser.Write(s);
+  const std::size_t expected = (has_o ? 1 : 0) + (v_is_handle ? 1 : 0) + 1;
+  vt_check(static_cast<bool>(st) && w.npushed == expected, "exactly the handles present in the value are pushed, each once");
+  std::size_t k = 0;
+  if (has_o) { vt_check(w.pushed[k] == ho, "the Optional's handle is pushed first"); k++; }
+  if (v_is_handle) { vt_check(w.pushed[k] == hv, "the Variant's handle is pushed in encounter order"); k++; }
+  vt_check(w.pushed[k] == hl, "the last member's handle is pushed last");
+  vt_check(size >= w.pos, "GetSize never under-estimates");
+  HReader r;
+  r.Init(buf, w.pos);
+  r.nasked = 0;
+  r.get_fail_at = 9;
+  r.get_fail_code = 16;
+  nop::Deserializer<HReader*> d{&r};
+  SN out;
+  auto rs = d.Read(&out);
+  vt_check(static_cast<bool>(rs) && r.nasked == expected && r.pos == w.pos, "every encoded reference is resolved once and the encoding is consumed exactly");
+  vt_check(out.o.empty() == !has_o && (!has_o || out.o.get().get() == 110), "the Optional's handle denotes the resource its reference resolves to");
+  vt_check(out.v.index() == (v_is_handle ? 0 : 1), "the Variant keeps its alternative");
+  if (v_is_handle) vt_check(out.v.get<H>()->get() == 110 + static_cast<int>(has_o ? 1 : 0), "the Variant's handle denotes the resource its reference resolves to");
+  vt_check(out.last.get() == 110 + static_cast<int>(expected - 1), "the last handle denotes the resource its reference resolves to");
+  vt_cover(has_o && v_is_handle, "three handles reached");
+  vt_cover(!has_o && !v_is_handle, "single handle reached");
+}
+
 }  // namespace vt
 
+VT_HARNESS(h_handle_nested) { vt::handle_nested_lemma(); }
 VT_HARNESS(h_unique_handle) { vt::unique_handle_ops(); }
 VT_HARNESS(h_handle_write) { vt::handle_write_lemma(); }
 VT_HARNESS(h_handle_read) { vt::handle_read_lemma(); }
